@@ -115,6 +115,7 @@ func (l *Listener) Close() error {
 		return nil
 	}
 	l.isClose = true
+	verifTrace("LClose", l, nil, 0, 0)
 
 	if l.shutdownErrStr != "" {
 		l.callback.OnShutdown(l.shutdownErrStr)
@@ -184,6 +185,7 @@ func (l *Listener) HotRestart(epoch uint64) error {
 
 	l.state = hotRestartState
 	l.epoch = epoch
+	verifTrace("LBegin", l, nil, int64(epoch), 0)
 
 	l.sessions.sessionMu.Lock()
 	defer l.sessions.sessionMu.Unlock()
@@ -195,6 +197,7 @@ func (l *Listener) HotRestart(epoch uint64) error {
 		if session.state != defaultState {
 			continue
 		}
+		verifTrace("LNotify", l, session, int64(epoch), 0)
 		if err := session.hotRestart(epoch, typeHotRestart); err != nil {
 			session.logger.warnf("%s hotRestart epoch %d error %+v", session.name, epoch, err)
 			l.state = defaultState
@@ -204,6 +207,7 @@ func (l *Listener) HotRestart(epoch uint64) error {
 		l.hotRestartAckCount++
 	}
 
+	verifTrace("LEnd", l, nil, int64(epoch), int64(l.hotRestartAckCount))
 	go func() {
 		l.checkHotRestart()
 	}()
@@ -250,6 +254,7 @@ func (l *Listener) checkHotRestart() {
 			if l.hotRestartAckCount == 0 {
 				l.logger.warnf("[epoch:%d] checkHotRestart done", l.epoch)
 				l.state = hotRestartDoneState
+				verifTrace("LDone", l, nil, int64(l.epoch), 0)
 				l.sessions.onHotRestart(true)
 				l.mu.Unlock()
 				return
@@ -278,6 +283,7 @@ func (l *Listener) resetState() {
 	for session := range l.sessions.data {
 		session.state = defaultState
 	}
+	verifTrace("LTimeout", l, nil, int64(l.epoch), 0)
 }
 
 type sessionCallback struct {
